@@ -198,6 +198,10 @@ class Engine:
                 p.assume(r != v.term)
             elif isinstance(v, (VList, VSet, VDict)):
                 p.assume(r != v.ref)
+            elif isinstance(v, VIter):
+                p.assume(T.neg(T.Mem(v.seq, r)))
+            elif isinstance(v, VSeq):
+                p.assume(T.neg(T.Mem(v.term, r)))
         p.schemas.extend(self.freshness_schemas(r, p.st))
         if kind == "obj":
             # a new instance has no dynamic attributes and an empty memo until someone sets them
@@ -258,6 +262,10 @@ class Engine:
             facts.append(t != NONE)
             facts.append(T.cls_of(t) == self.ct.Other)
             return VList(t, ty[5:] or None), facts
+        if ty == "attrs":
+            t = z3.Const(nm, Ref)
+            facts.append(T.ad_len(t) >= 0)
+            return VAttrs(t), facts
         if ty.startswith("dict"):
             t = z3.Const(nm, Ref)
             return VDict(t, None), facts
@@ -275,7 +283,8 @@ class Engine:
         return VRef(t, cn, "obj"), facts
 
     # ------------------------------------------------------------------ verification of one function body
-    def verify_function(self, qualname: str):
+    def entry_path(self, qualname: str, need_body=True):
+        """symbolic arguments, pre-state and contract instance for a function under contract"""
         fi = self.repo.functions.get(qualname)
         c = self.reg.contracts.get(qualname)
         if fi is None:
@@ -283,9 +292,6 @@ class Engine:
         if c is None:
             raise Unsupported(f"no contract for {qualname}")
         self.cur, self.cur_contract = fi, c
-        self.loop_ord = {}
-        self._loop_nodes = {}
-        self._number_loops(fi.node)
         p = Path()
         p.st = State("pre")
         self.pre = p.st.copy()
@@ -300,16 +306,30 @@ class Engine:
         if fi.node.name == "__init__":
             sref = args["self"].term
             p.schemas.extend(self.freshness_schemas(sref, p.st))
+            p.st.write_where("dyn_has", lambda a, r=sref: (T.eq(a[0], r), z3.BoolVal(False)))
+            p.st.write_where("memo_has", lambda a, r=sref: (T.eq(a[0], r), z3.BoolVal(False)))
+            self.pre = p.st.copy()
             for k, v in args.items():
-                if k != "self" and isinstance(v, (VRef, VCallback)):
+                if k != "self" and isinstance(v, (VRef, VCallback, VAttrs)):
                     p.assume(v.term != sref)
                 if k != "self" and isinstance(v, (VList, VSet, VDict)):
                     p.assume(v.ref != sref)
+                if isinstance(v, VIter):
+                    p.assume(T.neg(T.Mem(v.seq, sref)))     # a new object is not an element of an argument
+                if isinstance(v, VSeq):
+                    p.assume(T.neg(T.Mem(v.term, sref)))
             p.allocs.append((sref, T.cls_of(sref), "self"))
         spec = self.build_spec(c, self.pre, args, p, site="body")
+        self.ghost_measure = spec.measure
         for (_lbl, r) in spec.requires:
             p.assume(r)
         p.schemas.extend(spec.assume_schemas)
+        return fi, c, p, args, spec
+
+    def verify_function(self, qualname: str):
+        fi, c, p, args, spec = self.entry_path(qualname)
+        self.loop_ord = {}
+        self._number_loops(fi.node)
         # vacuity guard: the precondition must be satisfiable
         self.emit(p, "cover", "cover/requires", z3.BoolVal(True), expect="sat")
         # bind python parameters
@@ -321,6 +341,56 @@ class Engine:
         for (rp, ctrl) in results:
             self.check_exit(rp, ctrl, spec, c)
         return spec
+
+    def enter_outcome(self, q: Path, o: Outcome, call_state: State):
+        """continue path q in the post-state of contract outcome o (q already assumes o.cond)"""
+        q.st = o.post.copy()
+        for (r, clsn) in o.fresh:
+            clsterm = self.ct.Other if clsn == "<container>" else (self.ct.c(clsn) if isinstance(clsn, str) else clsn)
+            kind = "container" if clsn == "<container>" else "obj"
+            q.assume(r != NONE)
+            q.assume(r != T.QA_INVALID)
+            q.assume(T.cls_of(r) == clsterm)
+            for (o2, _c, _k) in q.allocs:
+                q.assume(r != o2)
+            for v in self.args.values():
+                if isinstance(v, (VRef, VCallback, VAttrs)):
+                    q.assume(r != v.term)
+                elif isinstance(v, (VList, VSet, VDict)):
+                    q.assume(r != v.ref)
+                elif isinstance(v, VIter):
+                    q.assume(T.neg(T.Mem(v.seq, r)))
+                elif isinstance(v, VSeq):
+                    q.assume(T.neg(T.Mem(v.term, r)))
+            q.schemas.extend(self.freshness_schemas(r, call_state))
+            q.allocs.append((r, clsterm, kind))
+        for l in o.loose:
+            old = call_state._fs(l.fieldname)
+            q.st.fields[l.fieldname] = o.post._fs(l.fieldname)
+            q.st.havoc(l.fieldname)
+            cur = q.st._fs(l.fieldname)
+            q.schemas.extend(l.constraint(lambda *a, cur=cur: cur.read(*a), lambda *a, old=old: old.read(*a)))
+        for fct in o.facts:
+            q.assume(fct)
+
+    def lemma_preserve(self, qualname: str, assume, prove, tag: str):
+        """contract-level lemma (no code): every outcome of `qualname`'s contract, started in a state satisfying the
+        invariants `assume` (functions (State, ClassTable) -> Schema), ends in a state satisfying `prove`"""
+        fi, c, p, args, spec = self.entry_path(qualname)
+        for f in assume:
+            p.schemas.append(f(self.pre, self.ct))
+        self.emit(p, "cover", f"{tag}/cover", z3.BoolVal(True), expect="sat")
+        for oi, o in enumerate(spec.outcomes):
+            if not self.feasible(p, o.cond):
+                continue
+            q = p.copy()
+            q.assume(o.cond)
+            self.enter_outcome(q, o, self.pre)
+            for f in prove:
+                sch = f(q.st, self.ct)
+                sk = tuple(T.fresh("sk", s_) for s_ in sch.sorts)
+                self.emit(q, "lemma", f"{tag}/{o.label or ('raises-' + o.exc if o.exc else 'normal') + str(oi)}/{sch.name}",
+                          sch.fn(*sk), meta={"clause": f"{sch.name} holds after {qualname} ({o.exc or 'normal'} exit)"})
 
     def _number_loops(self, fnode):
         n = 0
@@ -427,6 +497,8 @@ class Engine:
                 if lhs.eq(rhs):
                     continue
                 hyp = [addr[0] != g_ for g_ in garbage] if addr and addr[0].sort().eq(Ref) else []
+                if o.exc is not None and self.cur.node.name == "__init__" and addr and addr[0].sort().eq(Ref):
+                    hyp.append(addr[0] != self.args["self"].term)   # the half-built object is unobservable
                 # the returned/kept containers' contents matter; pure garbage does not
                 self.emit(q, "frame", f"{tag}/{olabel}/state:{fname}", T.eq(lhs, rhs), extra_hyps=hyp,
                           meta={"clause": f"post-state of field {fname}", "addr": [str(a) for a in addr]})
@@ -720,6 +792,9 @@ class Engine:
     def check_inv(self, p: Path, inv: LoopInv, what: str, ls: LoopSpec, entry_st: State):
         """emit obligations that path p satisfies the invariant"""
         name = f"loop{ls.ordinal}/{what}"
+        if inv.defs:
+            p = p.copy()
+            p.schemas.extend(inv.defs)
         for i, f in enumerate(inv.facts):
             self.emit(p, "loop", f"{name}/fact[{i}]", f, meta={"clause": f"loop invariant fact {i}"})
         for sch in inv.schemas:
@@ -787,7 +862,71 @@ class Engine:
             return VRef(term, cname, "obj")
         return VRef(term, cname, "obj" if cname else "opaque")
 
+    def assume_inv(self, q: Path, inv: LoopInv, entry_st: State):
+        q.env.update(inv.define)
+        q.st = (inv.state if inv.state is not None else entry_st).copy()
+        for l in inv.loose:
+            old = entry_st._fs(l.fieldname)
+            q.st.havoc(l.fieldname)
+            cur = q.st._fs(l.fieldname)
+            q.schemas.extend(l.constraint(lambda *a, cur=cur: cur.read(*a), lambda *a, old=old: old.read(*a)))
+        for f in inv.facts:
+            q.assume(f)
+        q.schemas.extend(inv.schemas)
+        q.schemas.extend(inv.defs)
+        if inv.out is not None:
+            q.out = inv.out
+
+    def run_for_items(self, st, p: Path, a):
+        """for key, val in <attributes>.items(): index-based cut (ghost index L.k)"""
+        ls = self.loop_spec(st)
+        entry_st = p.st.copy()
+        entry_env = dict(p.env)
+
+        def mk(env, k, stt=None):
+            L = LoopCtx(env, entry_st, self.pre, None, None, None, self.args, self, k)
+            L.entry_env = entry_env
+            L.entry_out = p.out
+            L.cur = stt
+            L.items_of = a
+            return L
+        self.check_inv(p, ls.fn(mk(p.env, z3.IntVal(0), p.st)), "entry", ls, entry_st)
+        assigned = self.assigned_names(st)
+        results = []
+        q = p.copy()
+        q.trail.append(f"L{ls.ordinal}i")
+        i = T.fresh("i", Int)
+        q.assume(z3.And(i >= 0, i < T.ad_len(a)))
+        for n in assigned:
+            if n in q.env:
+                q.env[n] = self.havoc_local(n, q.env[n])
+        self.assume_inv(q, ls.fn(mk(q.env, i)), entry_st)
+        if self.feasible(q):
+            item = VPyTuple([VStr(T.ad_key(a, i)), VRef(T.ad_val(a, i), None, "opaque")])
+            for (r0, ctrl0) in self.assign(st.target, item, q):
+                if ctrl0 is not None:
+                    results.append((r0, ctrl0))
+                    continue
+                for (r, ctrl) in self.exec_block(st.body, r0):
+                    if ctrl is None or ctrl[0] == "continue":
+                        self.check_inv(r, ls.fn(mk(r.env, i + 1, r.st)), "preserve", ls, entry_st)
+                    elif ctrl[0] == "break":
+                        results.append((r, None))
+                    else:
+                        results.append((r, ctrl))
+        e = p.copy()
+        e.trail.append(f"L{ls.ordinal}x")
+        for n in assigned:
+            if n in e.env:
+                e.env[n] = self.havoc_local(n, e.env[n])
+        self.assume_inv(e, ls.fn(mk(e.env, T.ad_len(a))), entry_st)
+        if self.feasible(e):
+            results.append((e, None))
+        return results
+
     def run_for(self, st, p: Path, it: V):
+        if isinstance(it, VConst) and isinstance(it.value, tuple) and it.value[0] == "items":
+            return self.run_for_items(st, p, it.value[1])
         ls = self.loop_spec(st)
         seq, ecn = self.iter_seq(p, it)
         if isinstance(it, VIter) and it.is_none is not None and not z3.is_false(it.is_none):
@@ -837,18 +976,7 @@ class Engine:
             if n in q.env:
                 q.env[n] = self.havoc_local(n, q.env[n])
         invk = ls.fn(mk(q.env, pre))
-        q.env.update(invk.define)
-        q.st = (invk.state if invk.state is not None else entry_st).copy()
-        for l in invk.loose:
-            old = entry_st._fs(l.fieldname)
-            q.st.havoc(l.fieldname)
-            cur = q.st._fs(l.fieldname)
-            q.schemas.extend(l.constraint(lambda *a, cur=cur: cur.read(*a), lambda *a, old=old: old.read(*a)))
-        for f in invk.facts:
-            q.assume(f)
-        q.schemas.extend(invk.schemas)
-        if invk.out is not None:
-            q.out = invk.out
+        self.assume_inv(q, invk, entry_st)
         if not self.feasible(q):
             body_res = []
         else:
@@ -872,18 +1000,7 @@ class Engine:
             if n in e.env:
                 e.env[n] = self.havoc_local(n, e.env[n])
         inve = ls.fn(mk(e.env, seq))
-        e.env.update(inve.define)
-        e.st = (inve.state if inve.state is not None else entry_st).copy()
-        for l in inve.loose:
-            old = entry_st._fs(l.fieldname)
-            e.st.havoc(l.fieldname)
-            cur = e.st._fs(l.fieldname)
-            e.schemas.extend(l.constraint(lambda *a, cur=cur: cur.read(*a), lambda *a, old=old: old.read(*a)))
-        for f in inve.facts:
-            e.assume(f)
-        e.schemas.extend(inve.schemas)
-        if inve.out is not None:
-            e.out = inve.out
+        self.assume_inv(e, inve, entry_st)
         if self.feasible(e):
             results.append((e, None))
         return results
@@ -913,18 +1030,7 @@ class Engine:
             if n in q.env:
                 q.env[n] = self.havoc_local(n, q.env[n])
         invk = ls.fn(mk(q.env, k))
-        q.env.update(invk.define)
-        q.st = (invk.state if invk.state is not None else entry_st).copy()
-        for l in invk.loose:
-            old = entry_st._fs(l.fieldname)
-            q.st.havoc(l.fieldname)
-            cur = q.st._fs(l.fieldname)
-            q.schemas.extend(l.constraint(lambda *a, cur=cur: cur.read(*a), lambda *a, old=old: old.read(*a)))
-        for f in invk.facts:
-            q.assume(f)
-        q.schemas.extend(invk.schemas)
-        if invk.out is not None:
-            q.out = invk.out
+        self.assume_inv(q, invk, entry_st)
         results = []
         for (r, c) in self.eval_cond(st.test, q):
             if isinstance(c, VRaise):
